@@ -40,6 +40,12 @@ inductive Entry (ω : Type) where
   | opts (o : ω)
   deriving Repr
 
+/-- the options byte `_send_subscribe` writes for a normalised entry when a `SubscribeOptions` object is represented
+by its packed byte (`ω := Nat`): the QoS itself (MQTT 3; `SubscribeOptions(qos=q).pack()` for MQTT 5), or that byte -/
+def entryByte : Entry Nat → Nat
+  | .qos q => q
+  | .opts o => o
+
 namespace Sub
 
 /-- `qos < 0 or qos > 2` (string form) -/
